@@ -1495,60 +1495,8 @@ def classify_aggregator_repeat(what, case, detail):
     return what == 'wrong-references' and aggregator_repeats_reference(_eff_of(case, detail))
 
 
-def _step_platforms(case, detail):
-    ps = set()
-    if (detail or {}).get('platform'):
-        ps.add(detail['platform'])
-    return ps - {'default'}
-
-
-def aggregator_override_restates_references(case, platform):
-    """on `platform` some aggregating component that consumes a replicated producer has an override block that
-    restates `references` (unrepaired compile_component_aggregate re-splits only the component's own list)"""
-    eff = effective(case, platform)
-    exp = expected(eff)
-    if 'error' in exp:
-        return False
-    region_of = {o['of'] for o in exp['comps'] if o['replica'] is not None}
-    for c, e in zip(case['comps'], eff['comps']):
-        o = (c.get('over') or {}).get(platform) or {}
-        if o.get('refs') is not None and is_agg(eff, e) is True and \
-                any(r['comp'] and cid(r['stage'], r['name']) in region_of for r in e['refs']):
-            return True
-    return False
-
-
-def classify_aggregator_override_references(what, case, detail):
-    """(until fixes/C03-override-block-replication.diff is applied)"""
-    case = normalise(case)
-    return what in ('loader-rejects-valid-workflow', 'wrong-references', 'dangling-reference', 'wrong-component-set',
-                    'replicated-flowir-cannot-be-read-back', 'wrong-references-of-graph-node', 'wrong-edge-set',
-                    'wrong-node-set') and \
-        any(aggregator_override_restates_references(case, p) for p in _step_platforms(case, detail))
-
-
-def override_defines_replica(case, platform):
-    """on `platform` some member of the replicated region has an override block whose variables define `replica`"""
-    eff = effective(case, platform)
-    exp = expected(eff)
-    if 'error' in exp:
-        return False
-    region_of = {o['of'] for o in exp['comps'] if o['replica'] is not None}
-    return any('replica' in (((c.get('over') or {}).get(platform) or {}).get('vars') or {})
-               and cid(c['stage'], c['name']) in region_of for c in case['comps'])
-
-
-def classify_override_replica(what, case, detail):
-    """(until fixes/C03-override-block-replication.diff is applied)"""
-    case = normalise(case)
-    return what in ('wrong-replica-variable', 'copy-does-not-know-its-replica-index') and \
-        any(override_defines_replica(case, p) for p in _step_platforms(case, detail))
-
-
 CLASSIFIERS = {'c03_reference_spelling_inside_other_token': classify_textual_overlap,
-               'c03_aggregator_declares_reference_twice': classify_aggregator_repeat,
-               'c03_aggregator_override_references_not_split': classify_aggregator_override_references,
-               'c03_override_block_defines_replica': classify_override_replica}
+               'c03_aggregator_declares_reference_twice': classify_aggregator_repeat}
 
 
 def scope_tags(case):
@@ -1778,13 +1726,6 @@ def check_cases(ctx, cases, keep=None):
             compare_model(ctx, case, effective(case, p), p, mouts[(idx, p)], outs[p])
 
 
-def known_override_defect(case, platform):
-    """(until fixes/C03-override-block-replication.diff is applied) the model is the REPAIRED code: the read-back
-    view is not compared on the inputs the two classified defects of the unrepaired code concern"""
-    return platform != 'default' and (aggregator_override_restates_references(case, platform) or
-                                      override_defines_replica(case, platform))
-
-
 def canon_layered(view):
     res = []
     for c in view:
@@ -1797,56 +1738,53 @@ def canon_layered(view):
 
 def compare_model(ctx, full, case, platform, m, out):
     """model vs implementation for the workflow `case` = effective(full, platform)"""
-    if True:
-        ctx.compare('model rendering of the declared references (ReplOver.layerRaw of the platform) == generated '
-                    'reference strings', full, m['in_refs'], [[render(r) for r in c['refs']] for c in case['comps']])
-        if 'error' in m:
-            ctx.tag('model:error:' + m['error'])
-            if m['error'] == 'duplicate':
-                impl_err = out.get('graph_error', 'accepted')
-            else:
-                impl_err = out.get('replicate_error', 'accepted')
-            ctx.compare('replication error kind == Repl.expand error', full, {'error': m['error']}, {'error': impl_err})
-            if m['error'] != 'duplicate':
-                for r in out.get('runs', []):
-                    ctx.compare('apply_replicate(components in a chosen processing order) error kind == '
-                                'ReplVars.expandRaw error', full, {'error': m['error']},
-                                {'error': r.get('error', 'accepted')})
-            return
-        ctx.tag('model:ok')
-        if 'replicate_error' in out:
-            ctx.compare('replicated components == Repl.goText', full, 'ok', {'error': out['replicate_error']})
-            return
-        case = full
-        NESTED.clear()
-        NESTED.update(_nested_of(m['text']))
-        if 'layered' in out and not known_override_defect(full, platform):
-            mlay = [dict(o['layered'], id=o['id']) for o in m['text']]
-            ctx.compare('replicated FlowIR read back through get_component_configuration(platform) == '
-                        'ReplOver.readBack of ReplOver.goBlocks', full, canon_layered(mlay),
-                        canon_layered(out['layered']) if isinstance(out['layered'], list) else out['layered'])
-            for r in out.get('runs', []):
-                if 'layered' in r:
-                    ctx.compare('apply_replicate(chosen processing order) read back through '
-                                'get_component_configuration(platform) == ReplOver.readBack', full, canon_layered(mlay),
-                                canon_layered(r['layered']) if isinstance(r['layered'], list) else r['layered'])
-        copies = {o['id'] for o in m['text'] if o['replica'] is not None}
-        ctx.compare('replicated components (references, arguments, variables, replicate) == Repl.goText + '
-                    'variables of ReplOver.goBlocks', case, canon_text(m['text'], copies), canon_text(out['comps'], copies))
-        for r in out.get('runs', []):
-            # the model's answer does not depend on the processing order (resolveAll_perm,
-            # count_independent_of_siblings): the code must give it for every order
-            ctx.compare('apply_replicate(components in a chosen processing order) == Repl.goText of '
-                        'ReplVars.resolveAll', case, canon_text(m['text'], copies),
-                        canon_text(r['comps'], copies) if 'comps' in r else {'error': r['error'], 'order': r['order']})
-        if known_override_defect(full, platform):
-            return
-        if 'graph_error' in out:
-            ctx.compare('loader verdict == Repl.expand verdict', case, 'loaded', {'error': out['graph_error']})
+    ctx.compare('model rendering of the declared references (ReplOver.layerRaw of the platform) == generated '
+                'reference strings', full, m['in_refs'], [[render(r) for r in c['refs']] for c in case['comps']])
+    if 'error' in m:
+        ctx.tag('model:error:' + m['error'])
+        if m['error'] == 'duplicate':
+            impl_err = out.get('graph_error', 'accepted')
         else:
-            ctx.compare('graph nodes == Repl.expand components', case, sorted(o['id'] for o in m['graph']), out['nodes'])
-            ctx.compare('graph edges == Repl.edges', case, sorted(set(map(tuple, m['edges']))),
-                        sorted(set(map(tuple, out['edges']))))
+            impl_err = out.get('replicate_error', 'accepted')
+        ctx.compare('replication error kind == Repl.expand error', full, {'error': m['error']}, {'error': impl_err})
+        if m['error'] != 'duplicate':
+            for r in out.get('runs', []):
+                ctx.compare('apply_replicate(components in a chosen processing order) error kind == '
+                            'ReplVars.expandRaw error', full, {'error': m['error']},
+                            {'error': r.get('error', 'accepted')})
+        return
+    ctx.tag('model:ok')
+    if 'replicate_error' in out:
+        ctx.compare('replicated components == Repl.goText', full, 'ok', {'error': out['replicate_error']})
+        return
+    case = full
+    NESTED.clear()
+    NESTED.update(_nested_of(m['text']))
+    if 'layered' in out:
+        mlay = [dict(o['layered'], id=o['id']) for o in m['text']]
+        ctx.compare('replicated FlowIR read back through get_component_configuration(platform) == '
+                    'ReplOver.readBack of ReplOver.goBlocks', full, canon_layered(mlay),
+                    canon_layered(out['layered']) if isinstance(out['layered'], list) else out['layered'])
+        for r in out.get('runs', []):
+            if 'layered' in r:
+                ctx.compare('apply_replicate(chosen processing order) read back through '
+                            'get_component_configuration(platform) == ReplOver.readBack', full, canon_layered(mlay),
+                            canon_layered(r['layered']) if isinstance(r['layered'], list) else r['layered'])
+    copies = {o['id'] for o in m['text'] if o['replica'] is not None}
+    ctx.compare('replicated components (references, arguments, variables, replicate) == Repl.goText + '
+                'variables of ReplOver.goBlocks', case, canon_text(m['text'], copies), canon_text(out['comps'], copies))
+    for r in out.get('runs', []):
+        # the model's answer does not depend on the processing order (resolveAll_perm,
+        # count_independent_of_siblings): the code must give it for every order
+        ctx.compare('apply_replicate(components in a chosen processing order) == Repl.goText of '
+                    'ReplVars.resolveAll', case, canon_text(m['text'], copies),
+                    canon_text(r['comps'], copies) if 'comps' in r else {'error': r['error'], 'order': r['order']})
+    if 'graph_error' in out:
+        ctx.compare('loader verdict == Repl.expand verdict', case, 'loaded', {'error': out['graph_error']})
+    else:
+        ctx.compare('graph nodes == Repl.expand components', case, sorted(o['id'] for o in m['graph']), out['nodes'])
+        ctx.compare('graph edges == Repl.edges', case, sorted(set(map(tuple, m['edges']))),
+                    sorted(set(map(tuple, out['edges']))))
 
 
 def shrink_orders(n):
@@ -2264,9 +2202,9 @@ def run(ctx):
     rng = ctx.rng
     quick = ctx.tier == 'quick'
     cases = [dict(c, order=list(range(len(c['comps']))), orders=shrink_orders(len(c['comps']))) for c in CORPUS]
-    n = 420 if quick else 4500
-    nh = 90 if quick else 800
-    npl = 130 if quick else 1800
+    n = 420 if quick else 2800
+    nh = 90 if quick else 480
+    npl = 130 if quick else 1000
     for i in range(n):
         cases.append(gen_case(rng))
         if i * nh // n != (i + 1) * nh // n:       # the histories are spread over the run
